@@ -128,6 +128,9 @@ type run struct {
 
 func (g *run) violation(op, detail, a, b, got, want string) {
 	cls := classify(op, a, b)
+	if strings.HasPrefix(got, "panic") {
+		cls = nil // a panic is never excused by an input class
+	}
 	for _, c := range cls {
 		if f, ok := g.known[c]; ok {
 			g.rep.Count("known:" + f.Key + ":" + c)
@@ -198,7 +201,11 @@ func (g *run) add(kind, line, goR, a, b string, nontrivial bool) {
 	if !*nomodel {
 		g.items = append(g.items, item{line: line, goR: goR, kind: kind, a: a, b: b})
 	}
-	g.rep.Eval(line, nontrivial)
+	if *nomodel {
+		g.rep.Evaluations++ // search mode: no de-duplication table (memory), the verdict is all that matters
+	} else {
+		g.rep.Eval(line, nontrivial)
+	}
 	g.rep.Count("op:" + kind)
 }
 
@@ -458,8 +465,8 @@ func main() {
 		}
 		n := 150000 * *scale
 		if *tier == "thorough" {
-			n = 1500000 * *scale
-			g.exhaustive(4, 4)
+			n = 6000000 * *scale
+			g.exhaustive(5, 4)
 		} else {
 			g.exhaustive(3, 3)
 		}
